@@ -167,6 +167,18 @@ InvC15 == NoFails(C15_Fails(buf, verdict))
 InvC16 == NoFails(C16_Fails(buf, verdict))
 InvC18 == NoFails(C18_Fails(buf, verdict))
 
+(***************************************************************************)
+(* Liveness (the other face of C18): under weak fairness of the reads, a   *)
+(* stream whose first line break arrives, or that exceeds 107 bytes, leads *)
+(* to a complete verdict -- a peer cannot keep the receiver waiting with a *)
+(* malformed line.  Checked without any state constraint.                  *)
+(***************************************************************************)
+MCLive == MCSpec /\ WF_mvars(MCNext)
+LiveDelivery == <>(buf = full)
+LiveC18 == V1!FinalWindow(full) => <>(HasFlags(verdict["v1b"]) /\ verdict["v1b"].cmp /\ HasFlags(verdict["auto"]) /\ verdict["auto"].cmp)
+(* and a complete verdict stays complete *)
+StableC18 == [][(HasFlags(verdict["v1b"]) /\ verdict["v1b"].cmp) => (HasFlags(verdict'["v1b"]) /\ verdict'["v1b"].cmp)]_mvars
+
 (* one scenario per completed behaviour *)
 Export ==
     (buf = full) =>
